@@ -250,6 +250,9 @@ StringDictionaryHASHHF::StringDictionaryHASHHF(IteratorDictString *it, uint len,
   bytesStrings++;
 
   table = builder->getTable();
+  // The coder created above can only encode: attach the decoding table
+  delete coder;
+  coder = new StatCoder(table, codewords);
   hash->finish(bytesStrings);
   hash->setData(textStrings);
 
